@@ -90,6 +90,12 @@ pub open spec fn vftable_of_first_base(reg: &TypeRegistry, p: ItemPath, regions:
     exists|vr: Option<Region>| #![trigger vftable_result_ok(reg, p, first_base_of(regions), own, (vft, vr))]
         vftable_result_ok(reg, p, first_base_of(regions), own, (vft, vr)) && (vr is Some ==> out.len() > 0 && out[0] == vr->0)
 }
+/// resolve_regions as a whole: vftable of the first base + the complete region list
+pub open spec fn resolve_regions_spec(reg: &TypeRegistry, p: ItemPath, regions: Seq<(Option<usize>, Region)>, own: Option<Vec<Function>>,
+                                      target: Option<usize>, vft: Option<TypeVftable>, out: Seq<Region>, size: usize) -> bool {
+    exists|vr: Option<Region>| #![trigger vftable_result_ok(reg, p, first_base_of(regions), own, (vft, vr))]
+        vftable_result_ok(reg, p, first_base_of(regions), own, (vft, vr)) && regions_spec(regions, vr, target, out, size, reg)
+}
 /// frame of a resolution attempt on the registry: nothing but the generated vftable item of `p` changes
 pub open spec fn registry_frame(old_reg: &TypeRegistry, new_reg: &TypeRegistry, p: ItemPath) -> bool {
     &&& new_reg.pointer_size == old_reg.pointer_size
